@@ -361,6 +361,21 @@ func sortInputs(r *rand.Rand, thorough bool) [][]int {
 			out = append(out, s)
 		}
 	}
+	// many short random slices with duplicates (13..60 elements, 2..9 distinct values): the pivot / duplicate handling of quicksort
+	// goes wrong only for particular arrangements of equal elements around the pivot positions
+	nshort := 4000
+	if thorough {
+		nshort = 40000
+	}
+	for i := 0; i < nshort; i++ {
+		n := 13 + r.Intn(48)
+		d := 2 + r.Intn(8)
+		s := make([]int, n)
+		for k := range s {
+			s[k] = r.Intn(d)
+		}
+		out = append(out, s)
+	}
 	// adversarial inputs that exhaust quicksort's depth budget (heapsort fallback)
 	for _, n := range []int{300, 600} {
 		if in, reached := sortAdversary(n); reached {
